@@ -67,13 +67,15 @@ REGISTRY = {
               'Equality of the tables of two related runs follows on paper from these facts and C09.'),
     'C08': _o('raise-site census (class of every raised exception, no handlers), dominating-guard rules in front of '
               'third-party calls with preconditions, decorator pass-through, validation-before-use ordering on the raw '
-              'input, index typestate',
+              'input, index typestate, definite-assignment dataflow (must-bound locals with branch facts) and '
+              'name resolution over every function reachable from the processing entry points',
               'Decides the second sentence of the property and the guard discipline: every raise is AmpycloudError, no '
               'handler swallows, and each third-party precondition known to bite (>= 2 samples for agglomerative '
               'clustering, populated mixture models, non-empty percentile selection, single-point LOWESS, Python-int '
               'oktas) is established by a dominating guard at the wrapper or at every call site; the raw input is only '
               'passed along or deep-copied until its type has been tested; label-based selections run on a normalised '
-              'index. Termination/totality of '
+              'index; no local name is read on a loop-free path that leaves it unbound and every name resolves in some '
+              'scope (no UnboundLocalError / NameError). Termination/totality of '
               'the third-party numerics is NOT claimed.', ''),
     'C09': _o('effect analysis (global-RNG consumers confined under tmp_seed), explicit random_state binding across call '
               'sites, try/finally typestate of tmp_seed, set-iteration and clock-taint scans, module-state confinement',
@@ -91,11 +93,15 @@ REGISTRY = {
               'has exactly two writers, nothing writes through the snapshot after construction, and the chunk fields are '
               'assigned objects it owns outright (deep copies).', 'Frames derived by pandas operations are new objects.'),
     'C12': _o('global-read census with alias substitution, guard analysis of the merge routine, fresh-object provenance '
-              'of the defaults, YAML key agreement (minimal YAML reader)',
+              'of the defaults, YAML key agreement (minimal YAML reader), polarity analysis of the path tests that '
+              'dominate the merge in set_prms (DNF of the guard), definite assignment / name resolution in the '
+              'parameter routines',
               'The live global dictionary is read only as the argument of the deep copy that makes the snapshot (plus '
               'MPL_STYLE in plots and the two documented writers), both routes merge through the same routine which never '
               'stores on its unknown-key path, reset reads the packaged file afresh, no stale import-time binding exists, '
-              'and every parameter path read from the snapshot exists in the packaged defaults.', ''),
+              'and every parameter path read from the snapshot exists in the packaged defaults; set_prms reaches the '
+              'merge exactly through positive tests (is a Path, exists, is a file) made on the path after a str has '
+              'been converted, so the YAML route is open to every file the caller can name.', ''),
     'C13': _o('confinement analysis: module/class/closure/memo state and argument mutation summaries over every function '
               'reachable from the processing path',
               'If all working state is reachable only from the chunk instance and helpers are pure, no schedule can make '
@@ -143,14 +149,18 @@ REGISTRY = {
               'before parameters are derived, each mode\'s undo is the algebraic inverse of its do with the same atoms, '
               'the forward map is increasing, the minimum range is honoured symmetrically, step scaling is continuous '
               'across its steps and its inverse switches segment at the images of the step edges (for 0..5 edges, '
-              'symbolic edges and scales). That min-max scaling lands in [0, 1] numerically is not claimed.', A2 + 'scale > 0, max > min, step scales > 0 (A5).'),
+              'symbolic edges and scales); convert_kwargs derives a parameter only when it is absent, only when scaling, '
+              'and every result it returns for a scaling carries all the parameters that scaling needs (propositional '
+              'entailment over the guards); every routine scales when called without a mode. That min-max scaling lands in [0, 1] numerically is not claimed.', A2 + 'scale > 0, max > min, step scales > 0 (A5).'),
     'C20': _o('effect analysis of plot code (rcParams writers, figure lifecycle under `not show`, file writes under '
               '`save_stem is not None`), chunk read-only summaries, modulo rule on style-cycle subscripts, '
-              'no-state-between-plots rule (memoised results never modified, no module-level writes on the plotting path)',
+              'no-state-between-plots rule (memoised results never modified, no module-level writes on the plotting path), '
+              'definite assignment / name resolution in the plotting code',
               'No unscoped writer of matplotlib global configuration exists in the package and public figure-creating '
               'functions run inside plt.style.context; the figure is closed on every normal show=False path; files are '
               'written once per requested format only when a stem is given; plot code has no write effect on the chunk; '
-              'style cycles are indexed modulo their length; nothing kept between two plots is altered. Totality of '
+              'style cycles are indexed modulo their length; nothing kept between two plots is altered; no local is read '
+              'unbound on a loop-free path. Totality of '
               'matplotlib is not claimed.', ''),
 }
 NOT_APPLICABLE = {}
